@@ -604,6 +604,11 @@ pub fn export_crate<'tcx>(tcx: TyCtxt<'tcx>) -> J {
             v.push(("name", J::s(tcx.item_name(did).to_string())));
         }
         v.push(("mir", body_j));
+        if is_fn_like {
+            // promoted constants (`&N::USIZE`, `&[..]` literals): tiny bodies the analyses evaluate when the parent reads through them
+            let proms = tcx.promoted_mir(did);
+            v.push(("promoted", J::Arr(proms.iter().map(|pb| body_json(tcx, did, pb)).collect())));
+        }
         bodies.push(J::Obj(v.into_iter().map(|(k, x)| (k.to_string(), x)).collect()));
     }
 
